@@ -14,7 +14,9 @@ from .. import tdfref as R
 PROP = "C02"
 RULE = ("states = distinct builder states incl. every prefix of the item list (one builder transition per item); "
         "oracle per state: nBytes == len(written) == reader position before an 0xEE sentinel; per transition: "
-        "growth == item.nBytes; plus the 8 capture blocks; non-trivial = >=2 items or a gap / None cell")
+        "growth == item.nBytes; plus the 8 capture blocks; plus inputs at the edge of the accepted domain (text of exactly "
+        "the field width +-1..2, +-inf as / beside the first component of a frame, half-missing frames): refused or sized "
+        "consistently; non-trivial = >=2 items or a gap / None cell")
 RULE = RULE + editwalk.RULE_SUFFIX
 ASSUMPTIONS = [
     "items are observed through public iteration and their public nBytes attribute",
